@@ -350,6 +350,8 @@ class CallsMixin:
             fa = self.def_instr(fr, d['x']['name'])
             if fa is not None and fa['op'] == 'FieldAddr' and types.kind(fa['x']['type']) == 'ptr':
                 tk, fname = types.elem(fa['x']['type']), fa['fname']
+            elif fa is not None and fa['op'] == 'Alloc' and fa.get('comment'):
+                return 'funcvalue:var.%s' % fa['comment']   # a local function variable held in a cell
         elif d is not None and d['op'] == 'Field':
             tk, fname = d['x'].get('type'), d['fname']
         if tk is None:
